@@ -173,7 +173,7 @@ pub struct Buggify {
     pub transparent_file_write: bool,
 }
 
-#[derive(Clone, Debug, Default, Serialize, Deserialize, PartialEq, Eq)]
+#[derive(Clone, Debug, Serialize, Deserialize, PartialEq, Eq)]
 pub struct Sim {
     /// absolute path of the world root; filled in by the runner for each execution
     #[serde(default)]
@@ -204,6 +204,23 @@ pub struct Sim {
 
 fn default_budget() -> u64 {
     200_000
+}
+
+impl Default for Sim {
+    fn default() -> Self {
+        Sim {
+            root: String::new(),
+            hash_seed: 0,
+            heap_shift: 0,
+            generators: BTreeMap::new(),
+            sched: Sched::default(),
+            choices: Vec::new(),
+            choice_seed: 0,
+            buggify: Buggify::default(),
+            fs_faults: Vec::new(),
+            step_budget: default_budget(),
+        }
+    }
 }
 
 #[derive(Clone, Debug, Default, Serialize, Deserialize, PartialEq)]
